@@ -290,7 +290,16 @@ def plan_C02(prop, tier):
     cfgs = grid(fl, W1_NS[tier], (1,)) + grid(("NM", "INT"), (0, 2), (0,))
     jobs = w1_jobs(tier, cfgs, G_ALL, 1)
     jobs += w2_jobs(tier, ("NM", "TM"), W2_PAIRS[tier], (0, 7, 15), 1)
-    return run_svmc(prop, tier, jobs)
+    # assert-enabled builds: the header's own asserts (capacity >= inline capacity, size <= capacity,
+    # allocation larger than the inline capacity) restate C02; an abort is attributed to it
+    for (f, n) in ((("TM", 2), ("NM", 0), ("MO", 3)) if tier == "quick" else (("TM", 2), ("NM", 0), ("MO", 3), ("CO", 1), ("TR", 2), ("NM", 5))):
+        b = w1bin(f, n, 1, ndebug=False)
+        jobs.append(Job(b.name, b, svmc_args(tier, G_ALL, 1)))
+    b2 = dict(W2_BOUNDS[tier])
+    for (f, n, m, a) in (("NM", 0, 2, 7), ("TM", 2, 3, 0), ("NM", 2, 2, 2)):
+        b = w2bin(f, n, m, a, ndebug=False)
+        jobs.append(Job(b.name, b, ["--S", b2["S"], "--R", b2["R"], "--faults", 1, "--focus", G_ALL, "--deadline", b2["deadline"]]))
+    return run_svmc(prop, tier, jobs, extra_assumptions=["includes assert-enabled (-UNDEBUG) builds of the header"])
 
 
 def plan_C03(prop, tier):
